@@ -52,9 +52,10 @@ func buildC14(tier string, seed int64) *Family {
 		}
 		return m
 	}
+	cur := cfg // document bounds of the instance being made
 	mk := func(harness, text, nsmap, nav string) *vm.Instance {
 		ast := oracle.MustParse(text)
-		p := cfg.params()
+		p := cur.params()
 		p["expr"] = text
 		p["prefixes"] = ",p,q"
 		p["uris"] = ",u1,u2"
@@ -63,7 +64,7 @@ func buildC14(tier string, seed int64) *Family {
 			p["nsmap"] = nsmap
 		}
 		ex := &vm.OracleExtra{Exprs: map[string]oracle.Expr{"expr": ast, "reuse": ast}, NSMap: parseMap(nsmap), HasURI: nav == "ns"}
-		in := &vm.Instance{ID: text + " map=" + nsmap + " nav=" + nav + " @" + cfg.tag(), Harness: harness, Params: p, Extra: ex}
+		in := &vm.Instance{ID: text + " map=" + nsmap + " nav=" + nav + " @" + cur.tag(), Harness: harness, Params: p, Extra: ex}
 		// a prefix that is missing from a non-nil map must be rejected by CompileWithNS
 		if m := parseMap(nsmap); m != nil || nsmap == "empty" {
 			for _, pf := range []string{"p:", "q:"} {
@@ -95,7 +96,13 @@ func buildC14(tier string, seed int64) *Family {
 		"p:*", "//p:*", "@p:*", "//q:*/@p:*", "ancestor::p:*", "//*[p:*]", "p:*/q:a", "//*[self::p:*]", "following::q:*", "//*[p:* or a]", "//*[p:* and q:a]"} {
 		for _, mp := range maps {
 			for _, nv := range navs {
+				// attribute steps below '//' over two attributes per element exceed the
+				// per-instance budget: one attribute per element for these
+				if strings.Contains(x, "//") && strings.Contains(x, "@") {
+					cur = docCfg{N: cfg.N, A: 1, Names: cfg.Names, Pool: cfg.Pool}
+				}
 				insts = append(insts, mk("H_nodeset", x, mp, nv))
+				cur = cfg
 			}
 		}
 	}
